@@ -161,6 +161,38 @@ func (E *Engine) mutableFields(p *packages.Package) map[*types.Var]bool {
 	return m
 }
 
+// litsOf returns the function literals that variable o is bound to anywhere in the package.
+func (E *Engine) litsOf(p *packages.Package, o types.Object) []*ast.FuncLit {
+	var out []*ast.FuncLit
+	for _, file := range p.Syntax {
+		if o.Pos() < file.Pos() || o.Pos() > file.End() {
+			continue
+		}
+		ast.Inspect(file, func(n ast.Node) bool {
+			switch s := n.(type) {
+			case *ast.AssignStmt:
+				for i, l := range s.Lhs {
+					if id, ok := l.(*ast.Ident); ok && p.TypesInfo.ObjectOf(id) == o && i < len(s.Rhs) {
+						if lit, isLit := ast.Unparen(s.Rhs[i]).(*ast.FuncLit); isLit {
+							out = append(out, lit)
+						}
+					}
+				}
+			case *ast.ValueSpec:
+				for i, id := range s.Names {
+					if p.TypesInfo.ObjectOf(id) == o && i < len(s.Values) {
+						if lit, isLit := ast.Unparen(s.Values[i]).(*ast.FuncLit); isLit {
+							out = append(out, lit)
+						}
+					}
+				}
+			}
+			return true
+		})
+	}
+	return out
+}
+
 // declNodeOf reports whether variable o is (somewhere in the package) bound to a function literal.
 func (E *Engine) declNodeOf(p *packages.Package, o types.Object) bool {
 	found := false
@@ -263,7 +295,7 @@ type FuncResult struct {
 }
 
 var reNcalls = regexp.MustCompile(`ncalls\(([^()"]*(?:\([^()]*\))?[^()"]*)\)`)
-var reNcallsStr = regexp.MustCompile(`ncalls\("([^"]*)"\)`)
+var reNcallsStr = regexp.MustCompile(`(?:ncalls|lastarg)\("([^"]*)"`)
 
 // VerifyFunc generates the obligations of one function under contract.
 func (E *Engine) VerifyFunc(p *packages.Package, pc *PkgContracts, c *FuncContract) (res *FuncResult) {
